@@ -219,6 +219,18 @@ impl From<NumberValue> for f64 {
     }
 }
 
+impl JsonValue {
+    /// The result of an arithmetic operation: a number, or nothing when the
+    /// result is not finite (JSON has no spelling for infinity or NaN).
+    pub fn from_finite(value: f64) -> Option<Self> {
+        if value.is_finite() {
+            Some(value.into())
+        } else {
+            None
+        }
+    }
+}
+
 impl From<f64> for JsonValue {
     fn from(value: f64) -> Self {
         if value.fract() == 0.0 {
